@@ -39,6 +39,12 @@ type PlanC05 struct {
 	Buf     int          `json:"buf"`
 	Drain   bool         `json:"drain"` // a consumer drains the response stream
 	Faults  FaultSpec    `json:"faults"`
+	// InProc runs the session over the in-process transport with a queue of IPBuf envelopes; the
+	// scripted server stops reading from StallAtMs for StallMs, so that requests cannot even be sent.
+	InProc    bool `json:"inproc,omitempty"`
+	IPBuf     int  `json:"ip_buf,omitempty"`
+	StallAtMs int  `json:"stall_at_ms,omitempty"`
+	StallMs   int  `json:"stall_ms,omitempty"`
 }
 
 var idPool = []string{"cmd-a", "cmd-b", "cmd-c", "cmd-unused"}
@@ -60,6 +66,20 @@ func genC05(t *simrt.Tape, tier string) interface{} {
 	}
 	p.Buf = []int{0, 1, 2, 8}[t.Draw(4)]
 	p.Drain = t.Draw(4) != 0
+	if t.Draw(5) == 0 {
+		p.InProc = true
+		p.IPBuf = t.Draw(3)
+		if t.Draw(3) != 0 {
+			p.StallAtMs = []int{0, 1, 40, 500}[t.Draw(4)]
+			p.StallMs = []int{20, 300, 2000, 9000}[t.Draw(4)]
+			if t.Draw(2) == 0 {
+				// responses bearing the ids in use arrive while their requests are still stuck in the send
+				for id := 0; id < 3; id++ {
+					p.Unsol = append(p.Unsol, Unsol{AtMs: p.StallAtMs + 1 + t.Draw(p.StallMs), ID: id})
+				}
+			}
+		}
+	}
 	if t.Draw(3) == 0 {
 		p.Faults = benignFaults(t, 1500)
 		p.Faults.Capacity = 0
@@ -102,21 +122,44 @@ func runC05(w *World, pi interface{}) {
 		p.Rules = []RespRule{{}}
 	}
 	h := &History{}
-	rl, err := w.Net.Listen(tcpAddr(7900).String())
-	if err != nil {
-		return
+	var tr lime.Transport
+	var peer *RawPeer
+	if p.InProc {
+		addr := lime.InProcessAddr(fmt.Sprintf("c05-%d", ProcUniq()))
+		il := lime.NewInProcessTransportListener(addr)
+		if err := il.Listen(context.Background(), addr); err != nil {
+			return
+		}
+		defer il.Close()
+		var err error
+		tr, err = lime.DialInProcess(addr, p.IPBuf)
+		if err != nil {
+			return
+		}
+		actx, acancel := context.WithTimeout(context.Background(), time.Minute)
+		st, err := il.Accept(actx)
+		acancel()
+		if err != nil {
+			return
+		}
+		peer = NewRawInProcFromTransport(w, h, 0, st)
+	} else {
+		rl, err := w.Net.Listen(tcpAddr(7900).String())
+		if err != nil {
+			return
+		}
+		defer rl.Close()
+		w.Net.OnLink = func(lk *simnet.Link) { p.Faults.Apply(w, lk.BA) }
+		tr, err = lime.DialTcp(context.Background(), tcpAddr(7900), &lime.TCPConfig{})
+		if err != nil {
+			return
+		}
+		rc, err := rl.Accept()
+		if err != nil {
+			return
+		}
+		peer = NewRawTCPFromConn(w, h, 0, rc.(*simnet.Conn))
 	}
-	defer rl.Close()
-	w.Net.OnLink = func(lk *simnet.Link) { p.Faults.Apply(w, lk.BA) }
-	tr, err := lime.DialTcp(context.Background(), tcpAddr(7900), &lime.TCPConfig{})
-	if err != nil {
-		return
-	}
-	rc, err := rl.Accept()
-	if err != nil {
-		return
-	}
-	peer := NewRawTCPFromConn(w, h, 0, rc.(*simnet.Conn))
 	// scripted handshake
 	hsDone := NewFlag()
 	go func() {
@@ -133,7 +176,7 @@ func runC05(w *World, pi interface{}) {
 	}()
 	ch := lime.NewClientChannel(tr, p.Buf)
 	ectx, ecancel := context.WithTimeout(context.Background(), time.Minute)
-	_, err = ch.EstablishSession(ectx, compSelector, lime.NoneEncryptionSelector, lime.Identity{Name: "a", Domain: "b.org"}, authenticatorFor("guest"), "i")
+	_, err := ch.EstablishSession(ectx, compSelector, lime.NoneEncryptionSelector, lime.Identity{Name: "a", Domain: "b.org"}, authenticatorFor("guest"), "i")
 	ecancel()
 	if err != nil || !ch.Established() {
 		w.Count("not-established")
@@ -141,6 +184,16 @@ func runC05(w *World, pi interface{}) {
 	}
 	hsDone.WaitFor(time.Minute)
 	w.Armed = true
+	if p.InProc && p.StallMs > 0 {
+		t0 := simrt.Now()
+		from, to := t0+time.Duration(p.StallAtMs)*time.Millisecond, t0+time.Duration(p.StallAtMs+p.StallMs)*time.Millisecond
+		peer.ReadGate = func() {
+			if now := simrt.Now(); now >= from && now < to {
+				w.Count("server-stopped-reading")
+				time.Sleep(to - now)
+			}
+		}
+	}
 
 	var resps []respRec
 	nTag := 0
@@ -275,8 +328,13 @@ func runC05(w *World, pi interface{}) {
 	for _, fl := range cdone {
 		fl.WaitFor(30 * time.Minute)
 	}
-	// let late responses arrive and be routed
-	time.Sleep(15 * time.Second)
+	// let late responses arrive and be routed; a last response nobody asked for probes that the
+	// receiver is still routing at all (it must come out on the response stream)
+	time.Sleep(5 * time.Second)
+	if !peer.RemoteClosed().IsSet() {
+		sendResp(idPool[3], "")
+	}
+	time.Sleep(10 * time.Second)
 	stop.Set()
 	respDone.WaitFor(10 * time.Second)
 	time.Sleep(2 * time.Second)
@@ -448,7 +506,7 @@ func runC05(w *World, pi interface{}) {
 			}
 		}
 	}
-	ch.Close()
+	w.Bounded("ClientChannel.Close at the end of the run", 2*time.Minute, func() { ch.Close() })
 	if !peer.RemoteClosed().IsSet() {
 		peer.Close()
 	}
@@ -462,7 +520,7 @@ func init() {
 		Run:    runC05,
 		MaxSim: 3 * time.Hour,
 		Rule: "plans = (1-6 concurrent caller tasks x 1-6 ProcessCommand calls with ids from a pool of 3 and context deadlines 5 ms..30 s; a scripted responder that per request answers now / late / never / twice / after the next request / with another id; unsolicited responses incl. unknown ids; " +
-			"channel buffer sizes incl. 0; response stream drained or not; benign link faults); every request carries its call tag and every response a unique tag, invocations and returns are stamped with the scheduler's step number; " +
+			"channel buffer sizes incl. 0; response stream drained or not; benign link faults; in a fifth of the runs the in-process transport with a queue of 0-2 envelopes and a server that stops reading for a while, so that requests cannot be sent before their context ends); every request carries its call tag and every response a unique tag, invocations and returns are stamped with the scheduler's step number; " +
 			"oracle: interval reasoning over the history (own id only, context error only after the context ended, in-use only with an overlapping same-id call, no two accepted same-id calls pending at one moment (wire sight .. own response sent / context end), each response consumed at most once, unmatched responses on the stream, timely answers returned); " +
 			"non-trivial = session established; distinct = distinct (plan JSON, event-log hash)",
 	})
